@@ -95,7 +95,8 @@ SPEC = {
     "theorems": [T + n for n in [
         "op_table_is_identity", "op_table_injective", "exporter_shape_as_modelled",
         "literal_value_preserved", "literal_total", "literal_int32_min",
-        "gen_sem_expr", "gen_sem_expr_plain", "gen_sem_stmt", "gen_sem_stmts", "gen_sem_func", "gen_sem_program",
+        "gen_sem_expr", "gen_sem_expr_plain", "gen_sem_stmt", "gen_sem_stmts", "scope_block_push_is_append",
+        "gen_sem_func", "gen_sem_program",
         "cast_to_literal_dropped_changes_meaning"]],
     "harness": "c01",
     "nontrivial": nontrivial,
